@@ -614,6 +614,20 @@ class _Snap:
                         return True
         return False
 
+    @staticmethod
+    def _leaves(stmts):
+        return bool(stmts) and isinstance(stmts[-1], (ast.Raise, ast.Return, ast.Break, ast.Continue))
+
+    def _continuing_parts(self, s):
+        if isinstance(s, ast.If):
+            parts = [s.test]
+            if not self._leaves(s.body):
+                parts.extend(s.body)
+            if not self._leaves(s.orelse):
+                parts.extend(s.orelse)
+            return parts
+        return [s]
+
     def subst(self, expr, env):
         if not env or expr is None:
             return expr
@@ -673,9 +687,10 @@ class _Snap:
             if isinstance(s, ast.Try):
                 for h in s.handlers:
                     self.block(h.body, inner)
-            # after the statement
-            for nm in self.kills(s, env):
-                env.pop(nm, None)
+            # after the statement (an arm that always leaves - raise / return / break / continue - cannot affect what follows)
+            for part in self._continuing_parts(s):
+                for nm in self.kills(part, env):
+                    env.pop(nm, None)
             if isinstance(s, ast.Assign) and len(s.targets) == 1 and isinstance(s.targets[0], ast.Name):
                 nm = s.targets[0].id
                 reads = []
@@ -685,8 +700,42 @@ class _Snap:
                     env[nm] = (s.value, reads)
 
     def run(self):
-        self.block(self.fn.body, {})
+        self.block(self.fn.body, dict(getattr(self, "initial_env", {})))
         return self.changed
+
+
+def _captured_conditions(func):
+    """{name: (rhs, reads)} for condition flags of the enclosing function that a closure reads: bound exactly once there,
+    to a side-effect-free condition over names that neither the enclosing function nor the closure ever re-binds.
+    The value the closure sees is then the value of the condition itself."""
+    par = func.parent
+    if par is None:
+        return {}
+    ps = _Snap(par.node)
+    mine = _Snap(func.node)
+    out = {}
+    used = {n.id for n in ast.walk(func.node) if isinstance(n, ast.Name) and isinstance(n.ctx, ast.Load)}
+    for n in walk_own(par.node):
+        if isinstance(n, ast.Assign) and len(n.targets) == 1 and isinstance(n.targets[0], ast.Name) and n.targets[0].id in used:
+            nm = n.targets[0].id
+            if ps.binds.get(nm) != 1 or nm in ps.params or mine.binds.get(nm) or nm in mine.params:
+                continue
+            if not _Snap.is_condition(n.value):
+                continue
+            reads = []
+            if not ps.pure(n.value, reads):
+                continue
+            # only plain names (parameters / never re-bound locals of the enclosing function), compared with constants
+            names = [y.id for y in ast.walk(n.value) if isinstance(y, ast.Name)]
+            if any(k != "name" for (k, _w, _v) in reads):
+                continue
+            if any(ps.binds.get(y, 0) > (0 if y in ps.params else 1) or mine.binds.get(y) or y in mine.params for y in names):
+                continue
+            # the definition must be at the top level of the enclosing function, before the closure is defined
+            body = par.node.body
+            if n in body and func.node in body and body.index(n) < body.index(func.node):
+                out[nm] = (n.value, [])
+    return out
 
 
 def expand_condition_locals(func, stable=None, keep_names=()):
@@ -698,10 +747,13 @@ def expand_condition_locals(func, stable=None, keep_names=()):
         if isinstance(n, ast.Assign) and len(n.targets) == 1 and isinstance(n.targets[0], ast.Name) and (_Snap.is_condition(n.value) or isinstance(n.value, ast.Attribute)):
             has = True
             break
-    if not has:
+    captured = {k: v for k, v in _captured_conditions(func).items() if k not in keep_names}
+    if not has and not captured:
         return func
     node = _copy(func.node)
-    if not _Snap(node, stable, keep_names).run():
+    sn = _Snap(node, stable, keep_names)
+    sn.initial_env = captured
+    if not sn.run():
         return func
     ast.fix_missing_locations(node)
     nf = Func(func.qual, node, func.module, func.cls, func.parent)
@@ -1223,6 +1275,27 @@ def split_conditional_expressions(func):
     node = _copy(func.node)
     changed = [False]
 
+    class OrForm(ast.NodeTransformer):
+        """`x if x else y` is `x or y` (x a name / attribute chain: reading it twice or once is the same)"""
+        def visit_IfExp(self, n):
+            self.generic_visit(n)
+            if _simple(n.test) and ast.dump(n.test) == ast.dump(n.body):
+                changed[0] = True
+                return ast.copy_location(ast.BoolOp(op=ast.Or(), values=[n.body, n.orelse]), n)
+            if isinstance(n.test, ast.UnaryOp) and isinstance(n.test.op, ast.Not) and _simple(n.test.operand) and ast.dump(n.test.operand) == ast.dump(n.orelse):
+                changed[0] = True
+                return ast.copy_location(ast.BoolOp(op=ast.Or(), values=[n.orelse, n.body]), n)
+            return n
+
+        def visit_FunctionDef(self, n):
+            if n is node:
+                self.generic_visit(n)
+            return n
+
+        def visit_Lambda(self, n):
+            return n
+    OrForm().visit(node)
+
     def conv(s):
         v = getattr(s, "value", None)
         if isinstance(s, (ast.Assign, ast.Return, ast.Expr)) and isinstance(v, ast.IfExp):
@@ -1691,3 +1764,172 @@ def expand_attribute_aliases(func, keep_names, may_write):
     nf = Func(func.qual, node, func.module, func.cls, func.parent)
     nf.inlined_from = list(getattr(func, "inlined_from", []))
     return nf
+
+
+# ---------------------------------------------------------------------------
+# loop-exit flags:   done = False; while not done: ...; done = True   ->   while True: ...; break
+# ---------------------------------------------------------------------------
+def flags_to_breaks(func):
+    """A local that only says 'leave this loop at the next test' is replaced by
+    `break`.  Conditions (all syntactic / on the CFG of the function):
+      * the local is bound to False once, before a `while` whose test is
+        `not flag` (alone or as a conjunct with call-free other conjuncts),
+        and otherwise only bound to True inside that loop; it is not read
+        outside the loop; the loop has no else;
+      * from every `flag = True` to the loop head only tests of the flag itself
+        (taken as true), joins and with-exits are passed - i.e. nothing else
+        runs in that iteration once the flag is set.
+    Then setting the flag and breaking are the same thing."""
+    from .cfg import CFG
+    fn0 = func.node
+    cands = {}
+    for n in walk_own(fn0):
+        if isinstance(n, ast.Assign) and len(n.targets) == 1 and isinstance(n.targets[0], ast.Name) and isinstance(n.value, ast.Constant) and isinstance(n.value.value, bool):
+            cands.setdefault(n.targets[0].id, []).append(n.value.value)
+    cands = {k for k, v in cands.items() if v.count(False) == 1 and v.count(True) >= 1}
+    if not cands:
+        return func
+    node = _copy(fn0)
+    changed = False
+    for flag in sorted(cands):
+        binds = [n for n in walk_own(node) if isinstance(n, ast.Name) and n.id == flag and isinstance(n.ctx, (ast.Store, ast.Del))]
+        assigns = [n for n in walk_own(node) if isinstance(n, ast.Assign) and len(n.targets) == 1 and isinstance(n.targets[0], ast.Name) and n.targets[0].id == flag]
+        if len(binds) != len(assigns) or any(not (isinstance(a.value, ast.Constant) and isinstance(a.value.value, bool)) for a in assigns):
+            continue
+        if any(isinstance(a, ast.arg) and a.arg == flag for a in ast.walk(node)):
+            continue
+        init = [a for a in assigns if a.value.value is False]
+        sets = [a for a in assigns if a.value.value is True]
+        if len(init) != 1 or not sets:
+            continue
+        # the loop: a While whose test has the conjunct `not flag`, containing all the sets, following init in one block
+        loop = None
+        for w in walk_own(node):
+            if isinstance(w, ast.While) and not w.orelse:
+                conj = w.test.values if isinstance(w.test, ast.BoolOp) and isinstance(w.test.op, ast.And) else [w.test]
+                nf_ = [c for c in conj if isinstance(c, ast.UnaryOp) and isinstance(c.op, ast.Not) and isinstance(c.operand, ast.Name) and c.operand.id == flag]
+                rest = [c for c in conj if c not in nf_]
+                if len(nf_) == 1 and not any(isinstance(y, (ast.Call, ast.Await, ast.NamedExpr)) for c in rest for y in ast.walk(c)) \
+                        and all(any(y is a for y in ast.walk(w)) for a in sets) and not any(y is init[0] for y in ast.walk(w)):
+                    loop = (w, nf_[0], rest)
+        if loop is None:
+            continue
+        w, notflag, rest = loop
+        # init and the loop in the same block, init first
+        ok = False
+        for blk in ast.walk(node):
+            for fld in ("body", "orelse", "finalbody"):
+                sub = getattr(blk, fld, None)
+                if isinstance(sub, list) and init[0] in sub and w in sub and sub.index(init[0]) < sub.index(w):
+                    ok = True
+        if not ok:
+            continue
+        # no read of the flag outside the loop
+        reads_out = [n for n in ast.walk(node) if isinstance(n, ast.Name) and n.id == flag and isinstance(n.ctx, ast.Load) and not any(y is n for y in ast.walk(w))]
+        if reads_out:
+            continue
+        # a break must bind to this loop: the sets are not inside a nested loop of w
+        nested = False
+        for lp in ast.walk(w):
+            if lp is not w and isinstance(lp, (ast.While, ast.For)) and any(y is a for a in sets for y in ast.walk(lp)):
+                nested = True
+        if nested:
+            continue
+        try:
+            g = CFG(node, "?")
+        except Exception:
+            continue
+        heads = [n for n in g.nodes if n.kind == "join" and n.label == "loop_head"]
+        # the head of w: the join from which w's first test is reached
+        wtests = [n for n in g.nodes if n.kind == "test" and n.stmt is w]
+        whead = [h for h in heads if any(s is t for t in wtests for (s, _) in h.succ)]
+        if not whead:
+            continue
+        inert = True
+        for a in sets:
+            for an in g.nodes_of(a):
+                stack = [s for (s, l) in an.succ if l != "exc"]
+                seen = set()
+                while stack and inert:
+                    x = stack.pop()
+                    if x.id in seen or x is whead[0]:
+                        continue
+                    seen.add(x.id)
+                    if x.kind in ("join", "with_exit"):
+                        stack.extend(s for (s, l) in x.succ if l != "exc")
+                    elif x.kind == "test" and isinstance(x.ast, ast.Name) and x.ast.id == flag:
+                        # flag is True here: follow the true outcome only
+                        stack.extend(s for (s, l) in x.succ if s.kind == "branch" and s.polarity is True)
+                    elif x.kind == "branch" and isinstance(x.ast, ast.Name) and x.ast.id == flag:
+                        stack.extend(s for (s, l) in x.succ if l != "exc")
+                    else:
+                        inert = False
+        if not inert:
+            continue
+        # rewrite
+        class R(ast.NodeTransformer):
+            def visit_Assign(self, n2):
+                if n2 in sets:
+                    return ast.copy_location(ast.Break(), n2)
+                if n2 is init[0]:
+                    return None
+                return n2
+
+            def visit_Name(self, n2):
+                if n2.id == flag and isinstance(n2.ctx, ast.Load):
+                    return ast.copy_location(ast.Constant(value=False), n2)
+                return n2
+
+            def visit_FunctionDef(self, n2):
+                if n2 is node:
+                    self.generic_visit(n2)
+                return n2
+        w.test = ast.copy_location(ast.Constant(value=True), w.test) if not rest else (rest[0] if len(rest) == 1 else ast.copy_location(ast.BoolOp(op=ast.And(), values=rest), w.test))
+        R().visit(node)
+        node = _fold_constant_tests(node)
+        changed = True
+    if not changed:
+        return func
+    ast.fix_missing_locations(node)
+    nf = Func(func.qual, node, func.module, func.cls, func.parent)
+    nf.inlined_from = list(getattr(func, "inlined_from", []))
+    return nf
+
+
+def _fold_constant_tests(node):
+    """if <not False / not True / True / False>: ... -> the arm that runs."""
+    def truth(t):
+        if isinstance(t, ast.Constant) and isinstance(t.value, bool):
+            return t.value
+        if isinstance(t, ast.UnaryOp) and isinstance(t.op, ast.Not):
+            v = truth(t.operand)
+            return None if v is None else (not v)
+        return None
+
+    def block(body):
+        out = []
+        for s in body:
+            for fld in ("body", "orelse", "finalbody"):
+                sub = getattr(s, fld, None)
+                if isinstance(sub, list) and sub and isinstance(sub[0], ast.stmt) and not isinstance(s, (ast.FunctionDef, ast.AsyncFunctionDef, ast.ClassDef)):
+                    setattr(s, fld, block(sub))
+            if isinstance(s, ast.Try):
+                for h in s.handlers:
+                    h.body = block(h.body) or [ast.copy_location(ast.Pass(), h)]
+            if isinstance(s, ast.If):
+                v = truth(s.test)
+                if v is True:
+                    out.extend(s.body)
+                    continue
+                if v is False:
+                    out.extend(s.orelse)
+                    continue
+            out.append(s)
+        return out
+    node.body = block(node.body) or [ast.Pass()]
+    for n in ast.walk(node):
+        for fld in ("body",):
+            sub = getattr(n, fld, None)
+            if isinstance(sub, list) and not sub and isinstance(n, (ast.If, ast.For, ast.While, ast.With, ast.Try, ast.ExceptHandler)):
+                sub.append(ast.Pass())
+    return node
